@@ -669,6 +669,10 @@ func toStarlark1(typ protoreflect.FieldDescriptor, x protoreflect.Value, frozen 
 	case protoreflect.EnumKind:
 		// Invariant: only EnumValueDescriptor may appear here.
 		enumval := typ.Enum().Values().ByNumber(x.Enum())
+		if enumval == nil {
+			// A number with no declared name (possible in decoded messages).
+			return starlark.MakeInt(int(x.Enum()))
+		}
 		return EnumValueDescriptor{Desc: enumval}
 	}
 
